@@ -647,6 +647,7 @@ def run(ctx, report):
 
 
 MUTANTS = [
+    ('sse-cmp-pseudo-op-revived', 'miasmx/arch/ia32_arch.py', "'cmpsd', 'cmpss'] and len(args)==2 \\\n", "'cmpsd', 'cmpss'] and len(args)==3 \\\n", 'C03.D12'),
     ('fcom-in-float-arith', 'miasmx/arch/ia32_arch.py', "float_arith =    ['fadd','fsub','fmul','fdiv','fsubr','fdivr']", "float_arith =    ['fadd','fsub','fmul','fdiv','fsubr','fdivr','fcom']", 'C03.D8'),
     ('fcom-reg-sd-false', 'miasmx/arch/ia32_arch.py', 'addop("fcom",  [0xD8, 0xD0],       reg,   no_rm         , {}                 ,{sd:True} ', 'addop("fcom",  [0xD8, 0xD0],       reg,   no_rm         , {}                 ,{sd:False}', 'C03.D8'),
     ('pushfw-no-row', 'miasmx/arch/ia32_arch.py', '        addop("pushfw",[0x66, 0x9C],       noafs, no_rm         , {}                 ,{}                , {},                         )\n', '', 'C03.D3'),
